@@ -402,14 +402,17 @@ class ExecutableWithState(Generic[CallableType, ResultType]):
 
     def complete(self, result: ResultType) -> None:
         """Transition to COMPLETED state."""
-        self._status = BranchStatus.COMPLETED
+        # The status is read without a lock by the thread that builds the result: publish it
+        # last, so COMPLETED is never visible before the result it promises.
         self._result = result
         self._is_result_set = True
+        self._status = BranchStatus.COMPLETED
 
     def fail(self, error: Exception) -> None:
         """Transition to FAILED state."""
-        self._status = BranchStatus.FAILED
+        # see complete(): FAILED must not be visible before the error
         self._error = error
+        self._status = BranchStatus.FAILED
 
     def reset_to_pending(self) -> None:
         """Reset to PENDING state for resubmission."""
